@@ -283,6 +283,9 @@ func c04Grammars() []*gen.Grammar {
 			gen.T("if", "if . < 3 then %0 else %1 end", 2), gen.Comma, gen.Pipe, gen.Alt, gen.T("try", "try %0", 1, term), gen.TL("as", ". as $x | %0", 1, pipe),
 			gen.TL("label", "label $l | %0", 1, pipe), gen.T("array", "[%0]", 1), gen.T("plus1", "1 + %0", 1, gen.LMul), gen.T("inc", "(. + 1 | %0)", 1), gen.T("first", "first(%0)", 1),
 			gen.T("limit", "[limit(5; %0)]", 1),
+			// a recursive call as the last thing inside a try, and an error raised after the function has returned
+			gen.TL("defrecerr", "def g: if . < 3 then %0 else %1 end; 0 | g | error", 2, pipe), gen.TL("defrecerr2", "def g: if . < 3 then %0 else %1 end; [0 | g | error(\"x\")?, 8]", 2, pipe),
+			gen.T("tryinc", "try (. + 1 | %0)", 1), gen.T("optinc", "(. + 1 | %0)?", 1), gen.T("trycatchinc", "try (. + 1 | %0) catch 9", 1), gen.T("altinc", "((. + 1 | %0) // 7)", 1),
 		},
 	}
 	paths := &gen.Grammar{
